@@ -37,6 +37,13 @@ def idealOt : OtFun (BitVec 128) := fun ws fl => List.zipWith (fun w b => w.labe
 /-- `c02 <ot> <tape> <nw> <nin> <nout> <gates> <n0> <n1> <widths> <x> <y>` -/
 def handle (args : List String) : String :=
   match args with
+  | [n0, n1, offset, count] =>
+    -- `c04range n0 n1 offset count`: the garbler's guard on the evaluator's OT request
+    match n0.toNat?, n1.toNat?, offset.toNat?, count.toNat? with
+    | some n0, some n1, some o, some c =>
+      let p : Circuit2 := { c := default, n0 := n0, n1 := n1, outWidths := [] }
+      if p.acceptsOtRange o c then "accept" else "reject"
+    | _, _, _, _ => "bad-op"
   | [otName, tape, nw, nin, nout, gates, n0, n1, widths, x, y] =>
     match Aes.bytesOfHex tape, parseCircuit nw nin nout gates, n0.toNat?, n1.toNat?, parseNats widths with
     | some tape, some c, some n0, some n1, some widths =>
